@@ -533,7 +533,7 @@ func VerifyDiffProof(actions []RPCWriteAction, numLeaves uint64, treeHashes, lea
 		}
 		insertRange(start, numLeaves)
 
-		return acc.root() == root && len(treeHashes) == 0
+		return acc.root() == root && len(treeHashes) == 0 && acc.numLeaves == numLeaves
 	}
 
 	// first use the original proof to construct oldRoot
